@@ -122,7 +122,7 @@ func (s *sut) post(path, sqlText string, limit int) (int, []byte, error) {
 	if limit > 0 {
 		r.Header.Set("x-verif-row-limit", strconv.Itoa(limit))
 	}
-	resp, err := s.app.Test(r, 120000)
+	resp, err := s.app.Test(r, -1)
 	if err != nil {
 		return 0, nil, err
 	}
